@@ -20,12 +20,14 @@
 
     Termination of the PARSER within its fuel ([parse_top] never returns
     [OutOfFuel] / never escapes with an exception in tolerant mode) is the
-    subject of C06 and proved elsewhere; [C07_total_given_parse] is stated
-    relative to it. [fill_text] (textwrap) is not modelled. *)
+    subject of C06 ([C06_total]: every string, every context);
+    [C07_total_given_parse] is stated relative to it, [C07_total] composes the
+    two. [fill_text] (textwrap) is not modelled. *)
 From Coq Require Import NArith ZArith List Bool Arith.
 From PLV Require Import Base.PyStr Tok.PState Tok.Tokenizer Parse.Nodes Parse.Parser Parse.ParseWire.
 From PLV Require Import L2T.L2T L2T.L2TWire Tree.Visitor.
-From PLV Require Import Proofs.L2TUnfold Proofs.L2TFilters Proofs.L2TTotal Proofs.L2TTotalParse Proofs.L2TTotalTables.
+From PLV Require Import Proofs.L2TUnfold Proofs.L2TFilters Proofs.L2TTotal Proofs.L2TTotalParse Proofs.L2TTotalTables
+     Proofs.L2TTotalTop.
 From PLV Require Gen.GenWalkerCtx Gen.GenL2TCtx.
 Import ListNotations.
 
@@ -68,6 +70,16 @@ Theorem C07_total_given_parse : forall o s t p,
   exists txt st, latex_to_text o s true = Some (txt, st) /\ d_err st = None.
 Proof. exact total_given_parse. Qed.
 Print Assumptions C07_total_given_parse.
+
+(** ... and unconditionally: the tolerant parse of EVERY string returns a node
+    list within the model's own fuel ([C06_total], which holds for every context
+    since the fuel is computed from the context), so [latex_to_text] in tolerant
+    mode returns a string and no exception for every input string and every
+    option record *)
+Theorem C07_total : forall o s,
+  exists txt st, latex_to_text o s true = Some (txt, st) /\ d_err st = None.
+Proof. exact latex_to_text_total. Qed.
+Print Assumptions C07_total.
 
 (** ... and in either parsing mode: a result, if any, carries no exception *)
 Theorem C07_no_error_either_mode : forall o s tol r,
